@@ -1,6 +1,12 @@
 Require Import ExtrOcamlBasic.
-Require Import GV.Model.C02_io.
-Definition vp_run := c02_run.
-Definition vp_check := c02_check.
-Definition vp_nontriv := c02_nontriv.
+From Coq Require Import ZArith List.
+Require Import GV.Model.C02_io GV.Model.C01a_io.
+Import ListNotations.
+Local Open Scope Z_scope.
+(* cases "1000 :: <authority script>": the same frames through the real NetworkAuthority's command and
+   tick handles (clones, as the runtime uses them), judged with the C02 frame predicate inside the
+   authority-level walk of C01a_io (destination = unit, source = configured source address) *)
+Definition vp_run (l : list Z) : list Z := match l with 1000 :: r => c01a_run r | _ => c02_run l end.
+Definition vp_check (l o : list Z) : bool := match l with 1000 :: r => c01a_check r o | _ => c02_check l o end.
+Definition vp_nontriv (l o : list Z) : bool := match l with 1000 :: r => c01a_nontriv r o | _ => c02_nontriv l o end.
 Extraction "model.ml" vp_run vp_check vp_nontriv.
